@@ -40,31 +40,35 @@ use wtransport::VarInt;
 // ------------------------------------------------------------------ event log
 
 pub struct Log {
-    out: Mutex<(std::io::BufWriter<std::fs::File>, u64)>,
-    scn: Mutex<String>,
-    pub lines: AtomicU64,
+    out: Arc<Mutex<(std::io::BufWriter<std::fs::File>, u64)>>,
+    scn: String,
+    pub lines: Arc<AtomicU64>,
 }
 
 impl Log {
     pub fn create(path: &str) -> Arc<Self> {
         let f = std::fs::File::create(path).expect("create trace");
         Arc::new(Self {
-            out: Mutex::new((std::io::BufWriter::new(f), 0)),
-            scn: Mutex::new(String::new()),
-            lines: AtomicU64::new(0),
+            out: Arc::new(Mutex::new((std::io::BufWriter::new(f), 0))),
+            scn: String::new(),
+            lines: Arc::new(AtomicU64::new(0)),
         })
     }
 
-    pub fn set_scn(&self, scn: &str) {
-        *self.scn.lock().unwrap() = scn.to_string();
+    /// A handle on the same file whose events carry the scenario name `scn`.
+    pub fn for_scn(&self, scn: &str) -> Arc<Self> {
+        Arc::new(Self {
+            out: self.out.clone(),
+            scn: scn.to_string(),
+            lines: self.lines.clone(),
+        })
     }
 
     pub fn emit(&self, src: &str, ev: &str, mut fields: Map<String, Value>) {
         use std::io::Write;
-        let scn = self.scn.lock().unwrap().clone();
         let mut g = self.out.lock().unwrap();
         g.1 += 1;
-        fields.insert("scn".into(), json!(scn));
+        fields.insert("scn".into(), json!(self.scn));
         fields.insert("seq".into(), json!(g.1));
         fields.insert("src".into(), json!(src));
         fields.insert("ev".into(), json!(ev));
@@ -293,6 +297,10 @@ pub enum RecvH {
 pub struct Streams {
     send: HashMap<String, SendH>,
     recv: HashMap<String, RecvH>,
+    /// bytes already read per receive handle (pattern offset of the next read)
+    roff: HashMap<String, usize>,
+    /// bytes already written per send handle
+    woff: HashMap<String, usize>,
 }
 
 type Shared<T> = Arc<tokio::sync::Mutex<T>>;
@@ -1134,7 +1142,10 @@ async fn stream_op(log: Arc<Log>, who: String, streams: Shared<Streams>, step: V
                 Some(mut r) => {
                     let bufsize = u(&step, "buf", 4096) as usize;
                     let limit = u(&step, "limit", 64 << 20) as usize;
+                    let prior = streams.lock().await.roff.get(&k).copied().unwrap_or(0);
                     let (all, end, sizes) = read_to_end(&mut r, bufsize, limit, ms).await;
+                    streams.lock().await.roff.insert(k.clone(), prior + all.len());
+                    m.insert("prior".into(), json!(prior));
                     data_fields(&mut m, &all);
                     m.insert("end".into(), end);
                     m.insert("sizes".into(), json!(sizes));
@@ -1150,7 +1161,7 @@ async fn stream_op(log: Arc<Log>, who: String, streams: Shared<Streams>, step: V
                         } else {
                             u(&step, "salt", 0) as usize
                         };
-                        let off = u(&step, "off", 0) as usize;
+                        let off = u(&step, "off", 0) as usize + prior;
                         let upto = all
                             .iter()
                             .enumerate()
@@ -1178,6 +1189,11 @@ async fn stream_op(log: Arc<Log>, who: String, streams: Shared<Streams>, step: V
                     } else {
                         u(&step, "salt", 0) as usize
                     };
+                    let wprior = streams.lock().await.woff.get(&k).copied().unwrap_or(0);
+                    let mut step = step.clone();
+                    if step.get("bytes").is_none() && step.get("off").is_none() {
+                        step["off"] = json!(wprior);
+                    }
                     let data = payload_salted(&step, salt_eff);
                     let chunk = u(&step, "chunk", 0) as usize;
                     let mut off = 0usize;
@@ -1206,6 +1222,7 @@ async fn stream_op(log: Arc<Log>, who: String, streams: Shared<Streams>, step: V
                         Err(_) => res = json!({"k": "timeout"}),
                     }
                     let write_ok = res["k"] == "ok";
+                    streams.lock().await.woff.insert(k.clone(), wprior + off);
                     m.insert("res".into(), res);
                     m.insert("written".into(), json!(off));
                     m.insert("len".into(), json!(data.len()));
@@ -1631,7 +1648,7 @@ async fn run_step(w: &mut World, step: &Value) {
 
 pub async fn run_scenario(log: Arc<Log>, scn: &Value) {
     let name = s(scn, "scn").to_string();
-    log.set_scn(&name);
+    let log = log.for_scn(&name);
     let mut hdr = fields! {"role" => s(scn, "role"), "peer" => s(scn, "peer")};
     if let Some(m) = scn.get("meta") {
         hdr.insert("meta".into(), m.clone());
@@ -1681,10 +1698,10 @@ pub async fn run_scenario(log: Arc<Log>, scn: &Value) {
     log.emit("harness", "end", Map::new());
 }
 
-/// Runs every scenario of `path` (ndjson), `par` at a time is NOT done: scenarios
-/// share one log whose events carry the scenario name, and run sequentially so that
-/// timing-sensitive steps are not perturbed by their neighbours.
-pub fn run_file(path: &str, out: &str, threads: usize) -> u64 {
+/// Runs every scenario of `path` (ndjson), `par` at a time. Events carry the scenario
+/// name and a global sequence number; the orchestrator regroups them per scenario.
+/// Timing-sensitive families are run with `par` = 1.
+pub fn run_file(path: &str, out: &str, threads: usize, par: usize) -> u64 {
     let text = std::fs::read_to_string(path).expect("read scenarios");
     let log = Log::create(out);
     let rt = if threads <= 1 {
@@ -1700,19 +1717,32 @@ pub fn run_file(path: &str, out: &str, threads: usize) -> u64 {
             .unwrap()
     };
     rt.block_on(async {
+        let sem = Arc::new(tokio::sync::Semaphore::new(par.max(1)));
+        let mut handles = Vec::new();
         for line in text.lines() {
             let line = line.trim();
             if line.is_empty() {
                 continue;
             }
             let scn: Value = serde_json::from_str(line).expect("scenario json");
-            let l2 = log.clone();
-            // a panic inside a scenario is data, not a harness failure
-            let h = tokio::spawn(async move { run_scenario(l2, &scn).await });
-            if let Err(e) = h.await {
-                log.emit("harness", "scenario_panic", fields! {"text" => e.to_string()});
-                log.emit("harness", "end", Map::new());
-            }
+            let permit = sem.clone().acquire_owned().await.unwrap();
+            let log = log.clone();
+            handles.push(tokio::spawn(async move {
+                let name = s(&scn, "scn").to_string();
+                let l2 = log.clone();
+                let scn2 = scn.clone();
+                // a panic inside a scenario is data, not a harness failure
+                let h = tokio::spawn(async move { run_scenario(l2, &scn2).await });
+                if let Err(e) = h.await {
+                    let l = log.for_scn(&name);
+                    l.emit("harness", "scenario_panic", fields! {"text" => e.to_string()});
+                    l.emit("harness", "end", Map::new());
+                }
+                drop(permit);
+            }));
+        }
+        for h in handles {
+            let _ = h.await;
         }
     });
     log.flush();
